@@ -35,6 +35,10 @@ func ShrinkingMap.shrink
   loop 1 invariant forall k K :: visited(k) ==> has(newMap, k)
   ensures s.m != nil && held(s.mutex) && fresh(s.m)
   ensures forall k K :: (has(s.m, k) <==> old(has(s.m, k))) && (has(s.m, k) ==> s.m[k] == old(s.m[k]))
+  -- (assumed: the copy has as many entries as the original - it has the same keys, proved above; the map model has no
+  -- cardinality reasoning that would derive the equal length from the equal key sets)
+  ghost at return: assume len(s.m) == old(len(s.m))
+  ensures len(s.m) == old(len(s.m))
 
 func ShrinkingMap.delete
   requires s != nil && s.m != nil && s.opts != nil && held(s.mutex)
@@ -44,6 +48,7 @@ func ShrinkingMap.delete
   ensures deleted <==> old(has(s.m, key))
   ensures !has(s.m, key)
   ensures forall k K :: k != key ==> (has(s.m, k) <==> old(has(s.m, k))) && (has(s.m, k) ==> s.m[k] == old(s.m[k]))
+  ensures len(s.m) == old(len(s.m)) - (deleted ? 1 : 0)
 
 func ShrinkingMap.Set
   opt sequential
@@ -52,6 +57,7 @@ func ShrinkingMap.Set
   ensures wasCreated <==> !old(has(s.m, key))
   ensures has(s.m, key) && s.m[key] == value && s.m == old(s.m)
   ensures forall k K :: k != key ==> (has(s.m, k) <==> old(has(s.m, k))) && s.m[k] == old(s.m[k])
+  ensures len(s.m) == old(len(s.m)) + (wasCreated ? 1 : 0)
   ensures unlocked(s.mutex)
 
 func ShrinkingMap.Get
@@ -94,6 +100,7 @@ func ShrinkingMap.Delete
   ensures s.m != nil && (s.m == old(s.m) || fresh(s.m))
   ensures deleted ==> old(has(s.m, key)) && !has(s.m, key)
   ensures len(optCondition) == 0 ==> (deleted <==> old(has(s.m, key))) && !has(s.m, key)
+  ensures len(s.m) == old(len(s.m)) - (deleted ? 1 : 0)
   ensures forall k K :: k != key ==> (has(s.m, k) <==> old(has(s.m, k))) && (has(s.m, k) ==> s.m[k] == old(s.m[k]))
   ensures !deleted ==> (has(s.m, key) <==> old(has(s.m, key))) && (has(s.m, key) ==> s.m[key] == old(s.m[key]))
   ensures unlocked(s.mutex)
